@@ -135,7 +135,8 @@ def generate(rng, tier, index):
         sc = scenarios.schema_scenario(rng)
         sc.pop("ir", None)
     else:
-        sc = scenarios.config_scenario(rng, {"comp_src": 0.25})
+        sc = scenarios.config_scenario(rng, {"comp_src": 0.25,
+                                             "wild_defaults": 0.2})
     sc["prop"] = ID
     sc["rot"] = rng.randrange(1000)
     if sc["kind"] == "schema" and rng.random() < 0.12:
@@ -780,6 +781,28 @@ def execute(plan):
                                   "load (implementers of abx: %r -> %r)"
                                   % (ops.brief(tw0), ops.brief(tw1), sub0,
                                      sub1), pt, label, pt2, what)
+            if plan["kind"] == "config" and not plan.get("reuse_loader") \
+                    and "pkgfault" not in pt \
+                    and (ipt + plan.get("rot", 0)) % 4 == 2:
+                # the failed load as the FIRST load of a schema object (the
+                # shared one has served the baseline and earlier failure
+                # points: whatever a schema remembers from its first
+                # successful load would hide what a failed one leaves)
+                ctx3 = Ctx(plan, w)
+                if ctx3.setup():
+                    o_f, _pf, _rf = ctx3.run(store, faults, "faulty-first")
+                    o_r, _pr2, _rr = ctx3.run(store0, [], "rerun-first")
+                    out["evaluations"] += 2
+                    out["probes"]["failed-load-first-on-a-fresh-schema"] = \
+                        out["probes"].get(
+                            "failed-load-first-on-a-fresh-schema", 0) + 1
+                    if not o_f["ok"] and not same(o_r, base):
+                        violation("rerun-differs",
+                                  "on a schema object whose first load was "
+                                  "the failed one, the fault-free load gives "
+                                  "%s, baseline was %s"
+                                  % (ops.brief(o_r), ops.brief(base)),
+                                  pt, label, pt2)
             if probe_store is not None:
                 op_, _pp, _pr = ctx.run(probe_store, [], "probe")
                 out["evaluations"] += 1
